@@ -19,12 +19,14 @@ ASSUMPTIONS = [
     'rounding floor of a hierarchical indicator (a squared difference): (2|delta| eps + eps^2)/<V psi,psi> with eps = 1e-12*(|<data,psi>| + sum_j |Phi_j||<V 1_j,psi>|)',
 ]
 REQUIRED = {t: ['est:hh2', 'est:hierarchical', 'est:prolongate', 'path:serial', 'path:pool', 'density:random', 'density:galerkin',
-                'data:initial', 'data:dirichlet', 'hh2:vanishes', 'curve:UnitSquare', 'curve:PiSquare', 'curve:LShape', 'curve:Circle',
+                'data:initial', 'data:dirichlet', 'data:both', 'hh2:vanishes', 'curve:UnitSquare', 'curve:PiSquare', 'curve:LShape', 'curve:Circle',
                 'prolongate:identity', 'prolongate:nested']
             for t in ('quick', 'thorough')}
 TIMEOUT = {'quick': 1800, 'thorough': 9000}
 CURVES = ['UnitSquare', 'PiSquare', 'LShape', 'Circle']
-COMBOS = [('Dirichlet', 'UnitSquare'), ('Dirichlet', 'Circle'), ('MildSingular', 'LShape'), ('MildSingular', 'PiSquare'), ('Dirichlet', 'LShape'),
+# 'Mixed': Dirichlet datum t^2 together with the initial datum of the Singular/Smooth problem on the same domain (both terms of
+# data = g - M0 u0 present at once; legal for both estimators although no shipped problem combines them)
+COMBOS = [('Mixed', 'UnitSquare'), ('Mixed', 'LShape'), ('Dirichlet', 'UnitSquare'), ('Dirichlet', 'Circle'), ('MildSingular', 'LShape'), ('MildSingular', 'PiSquare'), ('Dirichlet', 'LShape'),
           ('MildSingular', 'Circle'), ('Smooth', 'UnitSquare'), ('Singular', 'LShape'), ('Smooth', 'PiSquare'), ('Singular', 'UnitSquare')]
 
 
@@ -32,7 +34,7 @@ def plan(tier, seed):
     specs = []
     for i, (p, d) in enumerate(COMBOS):
         for k in range(1 if tier == 'quick' else 3):
-            init = p in ('Smooth', 'Singular')
+            init = p in ('Smooth', 'Singular', 'Mixed')
             specs.append({'name': 'est-%s-%s-%d' % (p, d, k), 'mode': 'est', 'problem': p, 'domain': d, 'rseed': seed * 401 + 7 * i + k,
                           'n_ops': (2 if init else 14) + (4 if init else 14) * k if tier == 'quick' else (6 if init else 40) + (5 if init else 30) * k,
                           'pool': (i + k) % 2 == 0})
@@ -82,8 +84,14 @@ def run_est(spec, acc):
     N = len(elems)
     wit0 = {'problem': p, 'domain': d, 'mesh': ms, 'history': ls.history, 'n_elements': N}
     acc.seen('curve:' + d)
-    data = problems.problem_helper(p, d)
+    if p == 'Mixed':
+        data = dict(problems.problem_helper('Singular', d))
+        data.update(problems.problem_helper('MildSingular', d))
+    else:
+        data = problems.problem_helper(p, d)
     init = 'u0' in data
+    if init and 'g' in data:
+        acc.seen('data:both')
     acc.seen('data:initial' if init else 'data:dirichlet')
     factory = getattr(IM, d + 'BoundaryRefined') if init else None
     SL = SingleLayerOperator(mesh)
